@@ -15,7 +15,7 @@ Main results (end of file, namespace `PetgraphModel.Visit`; the helper lemmas li
                               the corollaries over every history from `with_nodes(n)` / `from_sorted_edges(..)`
 Hypotheses: the representation invariant `C05T.Inv`; `IxFits s` (the node count does not exceed the capacity of the
 index type `Ix`, so that `Ix::new(i)` is `i` for every node — without it `node_identifiers()` repeats ids);
-for the undirected table in addition `nodeCount ≤ 100` (the pair code `a * 100 + b` of `repairD7`) and `EdgeCountOk`
+for the undirected table in addition `EdgeCountOk` (no bound on the node count: wave 5, the pair code `pcode` of `repairD7`)
 (`edge_count()` counts every edge once: not part of `C05T.Inv`, derived from the refinement relation `C05T.Abs`
 in `csr_edgeCountOk`).
 -/
@@ -557,7 +557,7 @@ section undirected
 variable {s : State} {R : List Row}
 
 /-- the `fix` of `repairD7`: the edge is identified by its endpoint pair -/
-def fixId (e : Visit.ERef) : Visit.ERef := { e with id := min e.src e.tgt * 100 + max e.src e.tgt }
+def fixId (e : Visit.ERef) : Visit.ERef := { e with id := pcode (min e.src e.tgt) (max e.src e.tgt) }
 
 /-- the references `repairD7` keeps: one per edge -/
 def upperRefs (m : Nat) (R : List Row) : List Visit.ERef :=
@@ -578,7 +578,7 @@ theorem mapRows_rowsOver {α β : Type} (g : Nat → List α → List β) (qs : 
 
 theorem mem_upper (good : Good s R) (hf : IxFits s) (e' : Visit.ERef) :
     e' ∈ (upperRefs s.modulus R).map fixId ↔
-      ∃ k b w, look R k b = some w ∧ k ≤ b ∧ e' = ⟨k * 100 + b, k, b, w⟩ := by
+      ∃ k b w, look R k b = some w ∧ k ≤ b ∧ e' = ⟨pcode k b, k, b, w⟩ := by
   constructor
   · intro h
     obtain ⟨e, he, rfl⟩ := List.mem_map.1 h
@@ -594,7 +594,7 @@ theorem mem_upper (good : Good s R) (hf : IxFits s) (e' : Visit.ERef) :
 
 theorem mem_rowfix (good : Good s R) (hf : IxFits s) (a : Nat) (ha : a < R.length) (e' : Visit.ERef) :
     e' ∈ (vrow a (start R a) R[a]).map fixId ↔
-      ∃ b w, look R a b = some w ∧ e' = ⟨min a b * 100 + max a b, a, b, w⟩ := by
+      ∃ b w, look R a b = some w ∧ e' = ⟨pcode (min a b) (max a b), a, b, w⟩ := by
   constructor
   · intro h
     obtain ⟨e, he, rfl⟩ := List.mem_map.1 h
@@ -609,7 +609,7 @@ theorem mem_rowfix (good : Good s R) (hf : IxFits s) (a : Nat) (ha : a < R.lengt
     rw [← mem_filter_src (hf.rows good) a ha, List.mem_filter]
     exact ⟨hi, by simp⟩
 
-theorem upper_ids_nodup (good : Good s R) (hf : IxFits s) (h100 : R.length ≤ 100) :
+theorem upper_ids_nodup (good : Good s R) (hf : IxFits s) :
     (((upperRefs s.modulus R).map fixId).map (·.id)).Nodup := by
   rw [List.map_map]
   apply nodup_map_of_inj_on
@@ -621,9 +621,9 @@ theorem upper_ids_nodup (good : Good s R) (hf : IxFits s) (h100 : R.length ≤ 1
     have q2 : e2.src ≤ e2.tgt := by simpa using p2
     have b1 := vall_endpoints good hf e1 m1
     have b2 := vall_endpoints good hf e2 m2
-    have h' : e1.src * 100 + e1.tgt = e2.src * 100 + e2.tgt := by
+    have h' : pcode e1.src e1.tgt = pcode e2.src e2.tgt := by
       simpa [fixId, Nat.min_eq_left q1, Nat.max_eq_right q1, Nat.min_eq_left q2, Nat.max_eq_right q2] using h
-    have := code_inj (by omega) (by omega) h'
+    have := code_inj h'
     exact vall_unique good hf e1 e2 m1 m2 this.1 this.2
 
 theorem rowfix_nodup (good : Good s R) (hf : IxFits s) (a : Nat) (ha : a < R.length) :
@@ -638,23 +638,23 @@ theorem rowfix_nodup (good : Good s R) (hf : IxFits s) (a : Nat) (ha : a < R.len
   exact vall_unique good hf e1 e2 h1.1 h2.1 hs ht
 
 /-- row `a` of `edges`, re-identified, is what the kept references prescribe for the undirected graph -/
-theorem csr_edges_perm_und (good : Good s R) (hf : IxFits s) (hd : s.directed = false) (h100 : R.length ≤ 100)
+theorem csr_edges_perm_und (good : Good s R) (hf : IxFits s) (hd : s.directed = false)
     (a : Nat) (ha : a < R.length) :
     ((vrow a (start R a) R[a]).map fixId).Perm (expOut false ((upperRefs s.modulus R).map fixId) a) := by
   have sym := good.sym hd
-  apply perm_of_nodup_mem (rowfix_nodup good hf a ha) (expOut_nodup (upper_ids_nodup good hf h100) a)
+  apply perm_of_nodup_mem (rowfix_nodup good hf a ha) (expOut_nodup (upper_ids_nodup good hf) a)
   intro e'
   rw [mem_rowfix good hf a ha]
   simp only [expOut, Bool.false_eq_true, if_false]
   constructor
   · rintro ⟨b, w, hl, rfl⟩
     by_cases hab : a ≤ b
-    · refine List.mem_map.2 ⟨⟨a * 100 + b, a, b, w⟩, List.mem_filter.2 ⟨?_, by simp [incident]⟩, ?_⟩
+    · refine List.mem_map.2 ⟨⟨pcode a b, a, b, w⟩, List.mem_filter.2 ⟨?_, by simp [incident]⟩, ?_⟩
       · exact (mem_upper good hf _).2 ⟨a, b, w, hl, hab, rfl⟩
       · simp [orientOut, Nat.min_eq_left hab, Nat.max_eq_right hab]
     · have hba : b ≤ a := by omega
       have hne : ¬ b = a := by omega
-      refine List.mem_map.2 ⟨⟨b * 100 + a, b, a, w⟩, List.mem_filter.2 ⟨?_, by simp [incident]⟩, ?_⟩
+      refine List.mem_map.2 ⟨⟨pcode b a, b, a, w⟩, List.mem_filter.2 ⟨?_, by simp [incident]⟩, ?_⟩
       · exact (mem_upper good hf _).2 ⟨b, a, w, by rw [sym b a]; exact hl, hba, rfl⟩
       · simp [orientOut, hne, ERef.swap, Nat.min_eq_right hba, Nat.max_eq_left hba]
   · intro h
@@ -669,13 +669,13 @@ theorem csr_edges_perm_und (good : Good s R) (hf : IxFits s) (hd : s.directed = 
       exact ⟨k, w, by rw [sym b k]; exact hl,
         by simp [orientOut, hka, ERef.swap, Nat.min_eq_right hkb, Nat.max_eq_left hkb]⟩
 
-theorem csr_erefsOk_und (good : Good s R) (hf : IxFits s) (hd : s.directed = false) (h100 : R.length ≤ 100)
+theorem csr_erefsOk_und (good : Good s R) (hf : IxFits s) (hd : s.directed = false)
     (hcount : (upperRefs s.modulus R).length = s.edgeCount) : erefsOk (repairD7 (csrTable s)) := by
   unfold erefsOk
   rw [repairD7_erefs, repairD7_edgeCount, repairD7_ids]
   simp only [csrTable, Option.map_some, whenSome_some]
   rw [csr_erefs_eq good]
-  refine ⟨upper_ids_nodup good hf h100, ?_, ?_⟩
+  refine ⟨upper_ids_nodup good hf, ?_, ?_⟩
   · rw [List.length_map]
     show (upperRefs s.modulus R).length = _
     rw [hcount, State.edgeCountQ, hd]; rfl
@@ -684,7 +684,7 @@ theorem csr_erefsOk_und (good : Good s R) (hf : IxFits s) (hd : s.directed = fal
     have := vall_endpoints good hf e (List.mem_filter.1 he).1
     exact ⟨(mem_ids_iff good hf _).2 this.1, (mem_ids_iff good hf _).2 this.2⟩
 
-theorem csr_edgesOk_und (good : Good s R) (hf : IxFits s) (hd : s.directed = false) (h100 : R.length ≤ 100) :
+theorem csr_edgesOk_und (good : Good s R) (hf : IxFits s) (hd : s.directed = false) :
     edgesOk (nodeIdentifiers s) (repairD7 (csrTable s)) := by
   unfold edgesOk
   rw [repairD7_erefs, repairD7_edges, repairD7_directed]
@@ -694,9 +694,9 @@ theorem csr_edgesOk_und (good : Good s R) (hf : IxFits s) (hd : s.directed = fal
   intro a ha
   have ha' := (mem_ids_iff good hf a).1 ha
   rw [csr_edges_row good a ha']
-  exact csr_edges_perm_und good hf hd h100 a ha'
+  exact csr_edges_perm_und good hf hd a ha'
 
-theorem csr_nbrsOk_und (good : Good s R) (hf : IxFits s) (hd : s.directed = false) (h100 : R.length ≤ 100) :
+theorem csr_nbrsOk_und (good : Good s R) (hf : IxFits s) (hd : s.directed = false) :
     nbrsOk (nodeIdentifiers s) (repairD7 (csrTable s)) := by
   unfold nbrsOk
   rw [repairD7_erefs, repairD7_nbrs, repairD7_directed]
@@ -710,7 +710,7 @@ theorem csr_nbrsOk_und (good : Good s R) (hf : IxFits s) (hd : s.directed = fals
     apply List.map_congr_left
     intro e _; rfl
   rw [csr_nbrs_row good a ha', h1]
-  exact (csr_edges_perm_und good hf hd h100 a ha').map _
+  exact (csr_edges_perm_und good hf hd a ha').map _
 
 theorem csr_adjOk_und (good : Good s R) (hf : IxFits s) (hd : s.directed = false) :
     adjOk (nodeIdentifiers s) (repairD7 (csrTable s)) := by
@@ -736,8 +736,8 @@ theorem csr_adjOk_und (good : Good s R) (hf : IxFits s) (hd : s.directed = false
       · simp only at h1 h2; subst h1; subst h2
         rw [sym]; exact (vall_has good hf _ _ w).1 ⟨i, he⟩
     by_cases hab : a ≤ b
-    · exact ⟨⟨a * 100 + b, a, b, w⟩, (mem_upper good hf _).2 ⟨a, b, w, hl, hab, rfl⟩, Or.inl ⟨rfl, rfl⟩⟩
-    · exact ⟨⟨b * 100 + a, b, a, w⟩, (mem_upper good hf _).2 ⟨b, a, w, by rw [sym]; exact hl, by omega, rfl⟩,
+    · exact ⟨⟨pcode a b, a, b, w⟩, (mem_upper good hf _).2 ⟨a, b, w, hl, hab, rfl⟩, Or.inl ⟨rfl, rfl⟩⟩
+    · exact ⟨⟨pcode b a, b, a, w⟩, (mem_upper good hf _).2 ⟨b, a, w, by rw [sym]; exact hl, by omega, rfl⟩,
         Or.inr ⟨trivial, rfl, rfl⟩⟩
   · rintro ⟨e', he', h⟩
     refine ⟨hb, ?_⟩
@@ -966,23 +966,21 @@ theorem csrTable_callsOk (s : State) (h : C05T.Inv s) (hf : IxFits s) : CsrView.
 /-- **undirected `Csr`, behind the repair of the recorded finding D7**: with `edge_references` listing every edge
 once (source ≤ target) under its endpoint-pair id, the table is consistent.  `hcount` is the part of the
 invariant that `C05T.Inv` does not record (`edge_count()` counts every edge once); it follows from the
-abstraction relation (`csr_edgeCountOk`).  `h100`: the pair code `a * 100 + b` needs node indices below 100. -/
-theorem csrTable_consistent_undirected (s : State) (h : C05T.Inv s) (hf : IxFits s) (hd : s.directed = false)
-    (h100 : s.nodeCount ≤ 100) (hcount : EdgeCountOk s) :
+abstraction relation (`csr_edgeCountOk`). -/
+theorem csrTable_consistent_undirected (s : State) (h : C05T.Inv s) (hf : IxFits s) (hd : s.directed = false) (hcount : EdgeCountOk s) :
     TableConsistent (nodeIdentifiers s) (repairD7 (csrTable s)) := by
   obtain ⟨R, good⟩ := h
-  have h100' : R.length ≤ 100 := by rw [← good.rep.nodeCount]; exact h100
   exact {
     ids := csr_idsOk hf
     refs := csr_refsOk good
     index := csr_indexOk hf
     compact := csr_compactOk hf
-    erefs := csr_erefsOk_und good hf hd h100' ((edgeCountOk_iff good).1 hcount)
+    erefs := csr_erefsOk_und good hf hd ((edgeCountOk_iff good).1 hcount)
     eix := fun _ _ => whenSome_none _
-    nbrs := csr_nbrsOk_und good hf hd h100'
+    nbrs := csr_nbrsOk_und good hf hd
     nbrsOut := fun _ _ => whenSome_none _
     nbrsIn := fun _ _ => whenSome_none _
-    edges := csr_edgesOk_und good hf hd h100'
+    edges := csr_edgesOk_und good hf hd
     edgesOut := fun _ _ => whenSome_none _
     edgesIn := fun _ _ => whenSome_none _
     adj := csr_adjOk_und good hf hd }
@@ -993,10 +991,10 @@ theorem csr_edgeCountOk (s : State) (R : List Row) (g : AppendSpec.SG) (good : C
   edgeCountOk_of_abs good hf abs wf hd
 
 /-- **all histories, directed**: after any sequence of `add_node` / `add_edge` / `try_add_edge` / `clear_edges` /
-`IndexMut` calls (valid or not) on `Csr::<_, _, Directed, _>::with_nodes(n)` that stays within the capacity of the
-index type, the visit-trait table is consistent and no trait call panics. -/
+`IndexMut` calls (valid or not) on `Csr::<_, _, Directed, _>::with_nodes(n)` (wave 5: no `Fits` hypothesis on the history — at the capacity of the index
+type `add_node` panics and leaves the graph as it was), the visit-trait table is consistent and no trait call panics. -/
 theorem csrTable_consistent_all_histories (m c : Nat) (dbg : Bool) (n : Nat) (ops : List CsrM.Op)
-    (hfits : C05T.Fits m n ops) (h0 : m = 0 ∨ n ≤ m) :
+    (h0 : m = 0 ∨ n ≤ m) :
     let s := (run (withNodes true m c dbg n) ops).1
     TableConsistent (nodeIdentifiers s) (csrTable s) ∧ CsrView.callsOk s := by
   intro s
@@ -1009,7 +1007,7 @@ theorem csrTable_consistent_all_histories (m c : Nat) (dbg : Bool) (n : Nat) (op
 
 /-- **all histories, directed, starting from `from_sorted_edges`** -/
 theorem csrTable_consistent_from_sorted (m c : Nat) (dbg : Bool) (es : List Edge) (s0 : State) (ops : List CsrM.Op)
-    (h : fromSortedEdges m c dbg es = .ok s0) (h0 : IxFits s0) (hfits : C05T.Fits m s0.nodeCount ops) :
+    (h : fromSortedEdges m c dbg es = .ok s0) (h0 : IxFits s0) :
     let s := (run s0 ops).1
     TableConsistent (nodeIdentifiers s) (csrTable s) ∧ CsrView.callsOk s := by
   intro s
@@ -1019,10 +1017,9 @@ theorem csrTable_consistent_from_sorted (m c : Nat) (dbg : Bool) (es : List Edge
   have hd : s.directed = true := sp.1.trans (fromSorted_directed h).1
   exact ⟨csrTable_consistent s ⟨R, good⟩ hf hd, csrTable_callsOk s ⟨R, good⟩ hf⟩
 
-/-- **all histories, undirected** (behind `repairD7`), for graphs of at most 100 nodes -/
+/-- **all histories, undirected** (behind `repairD7`) -/
 theorem csrTable_consistent_all_histories_undirected (m c : Nat) (dbg : Bool) (n : Nat) (ops : List CsrM.Op)
-    (hfits : C05T.Fits m n ops) (h0 : m = 0 ∨ n ≤ m)
-    (h100 : (run (withNodes false m c dbg n) ops).1.nodeCount ≤ 100) :
+    (h0 : m = 0 ∨ n ≤ m) :
     let s := (run (withNodes false m c dbg n) ops).1
     TableConsistent (nodeIdentifiers s) (repairD7 (csrTable s)) ∧ CsrView.callsOk s := by
   intro s
@@ -1033,7 +1030,7 @@ theorem csrTable_consistent_all_histories_undirected (m c : Nat) (dbg : Bool) (n
   have wf : SGWF (specRun (withNodes false m c dbg n).modulus
       { directed := false, nodes := List.replicate n 0, edges := [] } ops).1 :=
     SGWF.run ⟨by simp, by intro _ k hk; simp at hk⟩ _ ops
-  exact ⟨csrTable_consistent_undirected s ⟨R, good⟩ hf hd h100 (edgeCountOk_of_abs good hf abs wf hd),
+  exact ⟨csrTable_consistent_undirected s ⟨R, good⟩ hf hd (edgeCountOk_of_abs good hf abs wf hd),
     csrTable_callsOk s ⟨R, good⟩ hf⟩
 
 /-! ### non-vacuity and the tie to the dumped witness -/
@@ -1060,12 +1057,11 @@ example :
     let s := (run (withNodes true 256 32 true 3)
       [.addEdge 0 2 5, .addEdge 1 1 7, .tryAddEdge 0 2 9, .tryAddEdge 1 3 1, .addNode 4, .addEdge 3 0 2]).1
     TableConsistent (nodeIdentifiers s) (csrTable s) ∧ CsrView.callsOk s :=
-  csrTable_consistent_all_histories 256 32 true 3 _ (by simp [CsrProofs.Fits, CsrProofs.nodesAfter]) (by omega)
+  csrTable_consistent_all_histories 256 32 true 3 _ (by omega)
 example :
     let s := (run (withNodes false 256 32 true 3)
       [.addEdge 0 2 5, .addEdge 1 1 7, .tryAddEdge 2 0 9, .clearEdges, .addNode 4, .addEdge 3 0 2, .addEdge 1 1 1]).1
     TableConsistent (nodeIdentifiers s) (repairD7 (csrTable s)) ∧ CsrView.callsOk s :=
-  csrTable_consistent_all_histories_undirected 256 32 true 3 _ (by simp [CsrProofs.Fits, CsrProofs.nodesAfter]) (by omega)
-    (by decide)
+  csrTable_consistent_all_histories_undirected 256 32 true 3 _ (by omega)
 
 end PetgraphModel.Visit
